@@ -61,6 +61,11 @@ type c07Case struct {
 	Ov2Path int    `json:"ov2_path,omitempty"` // 1+index of a second overridden path (0 = none)
 	Ov2     string `json:"ov2,omitempty"`
 	Missing bool   `json:"resolver_missing_unused"` // resolver map lacks the unused paths
+	// Prev: a file the same Restorer restores first (its own FileRestorer, its own override); the file
+	// under test must come out as if it had been restored alone
+	Prev *c07Case `json:"prev,omitempty"`
+	// Fields: the Restorer is NewRestorer() configured through its Path and Resolver fields
+	Fields bool `json:"fields,omitempty"`
 	LocalIs int    `json:"local_is"`                // -1 unrelated, else index of the path that is the local package
 }
 
@@ -69,7 +74,7 @@ func init() {
 		ID:    "C07",
 		Level: "model_checking",
 		Rule: "every configuration: used-path set (32 subsets of 5 paths incl. two packages named x and one whose name differs from its path) x 12 existing import shapes (none, single, block, two blocks, cgo alone and cgo leading a group, aliases/blank/dot, commented groups, same path twice, alias equal to name, raw-string and escaped path literals) " +
-			"x FileRestorer.Alias override {none} + path x {new id, id of another package, the suffixed name a conflict would generate (x1), an alias another source import already uses, '.', '', '_'} (and a second simultaneous override on a later path: quick {new id equal to the first override's, name of another package}, thorough the whole alphabet) x resolver {exact, lacking unused paths} x local path {unrelated, equal to a used path}; references are path-carrying identifiers in call, type and composite-literal positions; " +
+			"x FileRestorer.Alias override {none} + path x {new id, id of another package, the suffixed name a conflict would generate (x1), an alias another source import already uses, '.', '', '_'} (and a second simultaneous override on a later path: quick {new id equal to the first override's, name of another package}, thorough the whole alphabet) x resolver {exact, lacking unused paths} x local path {unrelated, equal to a used path}; the Restorer built by the constructor or configured through its fields; every shape also restored as the second file of a Restorer that restored another shape first (with and without an alias override there); references are path-carrying identifiers in call, type and composite-literal positions; " +
 			"oracle independent of updateImports: re-parse the output, rebuild the import table from its import declarations and the resolver map; binding of every reference, exact import set, distinct names, name preference override > source alias > resolved name (+ decimal suffix on conflict), " +
 			"stable order/comments when nothing is added, and go/types acceptance; state = configuration; non-trivial = configuration with at least one used path",
 		Assumptions: []string{"package i exports Fi/Ti/Vi so that a reference name identifies its package", "go/types (FakeImportC) is the acceptance oracle"},
@@ -84,6 +89,21 @@ func init() {
 		},
 		Run: func(ctx *core.Ctx, unit int) {
 			shape, ubase := unit/4, (unit%4)*8
+			if ubase == 8 {
+				// one Restorer restores an earlier file (every shape, with and without an alias override on
+				// its first path) and then this shape: the second file must come out as if restored alone
+				for prevShape := range c07Shapes {
+					for _, pov := range []int{-1, 0, 1} {
+						prev := c07Case{Used: 0b01011, Shape: prevShape, OvPath: pov, Ov: "zz", LocalIs: -1}
+						for _, used := range []int{0b01011, 0b00111} {
+							cs := c07Case{Used: used, Shape: shape, OvPath: -1, LocalIs: -1, Prev: &prev}
+							ctx.CountState(true)
+							ctx.R.Transitions++
+							ctx.Eval(cs, c07Check(cs))
+						}
+					}
+				}
+			}
 			for used := ubase; used < ubase+8; used++ {
 				for ovp := -1; ovp < len(c07Paths); ovp++ {
 					ovs := c07Overrides
@@ -100,6 +120,13 @@ func init() {
 								ctx.CountState(used != 0)
 								ctx.R.Transitions++
 								ctx.Eval(cs, c07Check(cs))
+								if ovp < 0 {
+									cf := cs
+									cf.Fields = true
+									ctx.CountState(used != 0)
+									ctx.R.Transitions++
+									ctx.Eval(cf, c07Check(cf))
+								}
 								if used == 13 && ovp == 2 && ov == "zz" {
 									ctx.Sample(cs)
 								}
@@ -161,6 +188,24 @@ func c07BuildFile(cs c07Case) (*dst.File, string) {
 	return f, src
 }
 
+func c07ResolveOv(pathIdx int, ov string) string {
+	switch ov {
+	case "@other":
+		// the resolved name of another package
+		return c07Names[c07Paths[(pathIdx+1)%len(c07Paths)]]
+	case "@srcalias":
+		// an alias that another import of the source already uses
+		if pathIdx == 0 {
+			return "x2"
+		}
+		return "f"
+	case "@other1":
+		// the name the conflict resolution would generate for a clash between the two x packages
+		return "x1"
+	}
+	return ov
+}
+
 func c07Check(cs c07Case) core.Outcome {
 	fail := func(key, f string, a ...interface{}) core.Outcome {
 		b, _ := json.Marshal(cs)
@@ -198,7 +243,8 @@ func c07Check(cs c07Case) core.Outcome {
 			}
 		}
 	}
-	resolveOv := func(pathIdx int, ov string) string {
+	resolveOv := c07ResolveOv
+	_ = func(pathIdx int, ov string) string {
 		switch ov {
 		case "@other":
 			// the resolved name of another package
@@ -231,6 +277,22 @@ func c07Check(cs c07Case) core.Outcome {
 	run := func() (string, error, string) {
 		f, _ := c07BuildFile(cs)
 		r := decorator.NewRestorerWithImports(local, simple.New(names))
+		if cs.Fields {
+			r = decorator.NewRestorer()
+			r.Path = local
+			r.Resolver = simple.New(names)
+		}
+		if cs.Prev != nil {
+			pf, _ := c07BuildFile(*cs.Prev)
+			pfr := r.FileRestorer()
+			if cs.Prev.OvPath >= 0 {
+				pfr.Alias[c07Paths[cs.Prev.OvPath]] = c07ResolveOv(cs.Prev.OvPath, cs.Prev.Ov)
+			}
+			var sink bytes.Buffer
+			if p := guard(func() { _ = pfr.Fprint(&sink, pf) }); p != "" {
+				return "", nil, "restoring the earlier file panicked: " + p
+			}
+		}
 		fr := r.FileRestorer()
 		for p, a := range overrides {
 			fr.Alias[p] = a
